@@ -23,8 +23,8 @@ RULE = ('Hypothesis cases: input content (generated configs() from all fast fami
         'subprocess, a long-lived caching client in-process (sometimes followed by a pair of same-line-set requests with a repeated parameter in opposite order) and the entry point directly. Oracle: the three reports are identical after '
         'removing version/date/time lines; the CLI creates exactly <out> and <out stem>.json at the requested place (default '
         'HDR.out / HDR.json in the starting directory) and nothing else in the watched directories; a failing input gives a '
-        'non-zero exit status and no report at the target. Non-trivial = non-default output location or a failing input.')
-ASSUMPTIONS = ['Monte Carlo embedded runs are covered by C14 (row replay through the client), not here',
+        'non-zero exit status and no report at the target. Each case also carries a prelude of 0-2 earlier requests served by the same process. Monte Carlo kind: a 2-5 iteration run (two thirds of them sampling a parameter whose name is a prefix of another one set in the base file); up to 3 rows are re-run as base input + recorded values through `python -m geophires_x` and the tracked outputs must be those of the row. Non-trivial = non-default output location or a failing input.')
+ASSUMPTIONS = ['Monte Carlo embedded runs: a few rows of small GEOPHIRES runs are re-run through the CLI here; row replay in depth (through the client, HIP-RA-X, fault mixes) is C14',
                'the CLI subprocess imports the tree under test through PYTHONPATH']
 
 STRIP = c08.strip_report
@@ -57,7 +57,9 @@ def _dup_pair(text):
 
 def plan(tier, seed, shards):
     n = 5 if tier == 'quick' else 95
-    return [{'kind': 'cli', 'n': n, 'seed': seed * 1000 + s} for s in range(shards)]
+    specs = [{'kind': 'cli', 'n': n, 'seed': seed * 1000 + s} for s in range(shards)]
+    specs += [{'kind': 'mc', 'n': 2 if tier == 'quick' else 8, 'seed': seed * 1000 + 500 + s} for s in range(shards if tier != 'quick' else 12)]
+    return specs
 
 
 @st.composite
@@ -75,8 +77,76 @@ def cases(draw):
         text, expect_ok, label = bad[i], False, f'failing{i}'
     out_kind = draw(st.sampled_from(['absent', 'relative', 'relative_subdir', 'absolute', 'absolute']))
     name = draw(st.sampled_from(['result.out', 'case.v2.out', 'sweep_grad_45.5.out', 'my result.out', 'r.txt', 'noext', 'HDR.out', 'a.b.c.d']))
+    # what the long-lived in-process client and pipeline were asked before: part of the case, so that one case replays alone
+    prelude = [ok[i] for i in draw(st.lists(st.integers(0, len(ok) - 1), min_size=0, max_size=2))]
     return {'kind': 'cli', 'text': text, 'label': label, 'expect_ok': expect_ok, 'out_kind': out_kind, 'out_name': name,
-            'cwd_depth': draw(st.integers(0, 2)), 'dup_pair': draw(st.integers(0, 2)) == 0}
+            'cwd_depth': draw(st.integers(0, 2)), 'dup_pair': draw(st.integers(0, 2)) == 0, 'prelude': prelude}
+
+
+@st.composite
+def mc_cases(draw):
+    from .. import mc
+    from . import c14
+    s = draw(mc.settings(program='GEO', fault_mix=False, max_iter=12))
+    s['iterations'] = draw(st.integers(2, 5))
+    s['workers'] = draw(st.sampled_from([1, 2, 4]))
+    s['extra_base'] = []
+    if draw(st.integers(0, 2)) != 0:
+        name, lo, hi, extra, out = draw(st.sampled_from(c14.PREFIX_PARAMS))
+        s['inputs'] = [i for i in s['inputs'] if i[0] != name][:2] + [[name, 'uniform', lo, hi]]
+        s['extra_base'] = extra
+        if out not in s['outputs']:
+            s['outputs'] = [out] + s['outputs'][:2]
+    s['kind'] = 'mc'
+    return s
+
+
+def evaluate_mc(s, rec):
+    """runs embedded in the Monte Carlo driver against the command line: base input + the row's recorded values through
+    `python -m geophires_x` must print the outputs the row holds"""
+    from .. import mc
+    from . import c14
+    worker.init_worker()
+    d = tempfile.mkdtemp(prefix='c20mc-', dir=worker.scratch_dir())
+    case = {k: s.get(k) for k in ('kind', 'program', 'inputs', 'outputs', 'iterations', 'workers', 'fault', 'final_newline', 'extra_base')}
+    try:
+        orig_base = mc.base_text
+
+        def base_text(ss):
+            t = orig_base(dict(ss, final_newline=True)) + sim.render(ss.get('extra_base') or [])
+            return t if ss.get('final_newline', True) else t[:-1]
+        mc.base_text = base_text
+        try:
+            r = mc.run_mc(s, d)
+            base = base_text(dict(s, final_newline=True))
+        finally:
+            mc.base_text = orig_base
+        good = [p for p in (mc.parse_row(x, s) for x in r.get('rows', [])) if p]
+        rec.case(case, nontrivial=bool(good), labels=['src:monte_carlo_embedded', 'prefix_named_parameter' if s.get('extra_base') else 'plain'],
+                 key=case, sample={'settings': mc.settings_text(s).splitlines(), 'rows': len(good)})
+        if not good:
+            rec.violation('monte_carlo_run_gives_no_rows', case, {'error': str(r.get('error'))[:300]}, out_kind='mc')
+            return
+        env = dict(os.environ, PYTHONPATH=SRC_DIR, MPLBACKEND='Agg', PYTHONDONTWRITEBYTECODE='1', TMPDIR=d)
+        for k, (outs, vals) in enumerate(good[:3]):
+            inp = os.path.join(d, f'row{k}.txt')
+            with open(inp, 'w', encoding='UTF-8') as f:
+                f.write(base + ''.join(f'{a}, {b}\n' for a, b in vals.items()))
+            outp = os.path.join(d, f'row{k}.out')
+            pr = subprocess.run([sys.executable, '-m', 'geophires_x', inp, outp], cwd=d, env=env, capture_output=True, text=True, timeout=900)
+            if pr.returncode != 0 or not os.path.exists(outp):
+                rec.violation('cli_fails_on_input_of_monte_carlo_row', case, {'rc': pr.returncode, 'stderr_tail': pr.stderr[-300:], 'values': vals}, out_kind='mc')
+                return
+            with open(outp, encoding='UTF-8') as f:
+                rep = f.read()
+            want = [c14.extract(rep, o) for o in s['outputs']]
+            if want != outs:
+                rec.violation('monte_carlo_embedded_run_differs_from_cli', case, {'row_outputs': outs, 'cli_outputs': want, 'outputs': s['outputs'],
+                                                                                  'values': vals}, out_kind='mc')
+                return
+        rec.count('monte_carlo_rows_rerun_through_cli', min(3, len(good)))
+    finally:
+        shutil.rmtree(d, ignore_errors=True)
 
 
 def _listing(root):
@@ -88,8 +158,29 @@ def _listing(root):
 
 
 def evaluate(c, rec):
+    if c.get('kind') == 'mc':
+        return evaluate_mc(c, rec)
     worker.init_worker()
     from geophires_x_client import GeophiresXClient, GeophiresInputParameters
+    for k, t in enumerate(c.get('prelude') or []):
+        # earlier requests of the same process: through the long-lived client and through the direct pipeline
+        # a path of its own for every request: the client names its report file after the input path, and a cached result
+        # keeps pointing at that file
+        _SHARED['n'] = _SHARED.get('n', 0) + 1
+        pth = os.path.join(worker.scratch_dir(), f'c20-prelude-{os.getpid()}-{_SHARED["n"]}.txt')
+        with open(pth, 'w', encoding='UTF-8') as f:
+            f.write(t)
+        stash = (os.getcwd(), sys.argv)
+        try:
+            with worker.quiet():
+                shared_client().get_geophires_result(GeophiresInputParameters(from_file_path=pth))
+        except BaseException as e:
+            if isinstance(e, (KeyboardInterrupt, MemoryError)):
+                raise
+        finally:
+            os.chdir(stash[0])
+            sys.argv = stash[1]
+            os.remove(pth)
 
     root = tempfile.mkdtemp(prefix='c20-', dir=worker.scratch_dir())
     try:
@@ -121,7 +212,7 @@ def evaluate(c, rec):
         pr = subprocess.run([sys.executable, '-m', 'geophires_x', inp_arg] + args, cwd=start, env=env, capture_output=True, text=True, timeout=900)
         after = _listing(root)
         created = sorted(after - before)
-        case = {k: c.get(k) for k in ('kind', 'text', 'label', 'expect_ok', 'out_kind', 'out_name', 'cwd_depth', 'dup_pair')}
+        case = {k: c.get(k) for k in ('kind', 'text', 'label', 'expect_ok', 'out_kind', 'out_name', 'cwd_depth', 'dup_pair', 'prelude')}
         sig = dict(out_kind=kind)
 
         def bad(clause, detail, **extra):
@@ -221,7 +312,7 @@ def run_shard(spec, rec):
         if rec.out_of_time():
             return
         evaluate(c, rec)
-    drive(cases(), fn, spec['n'], spec['seed'])
+    drive(mc_cases() if spec['kind'] == 'mc' else cases(), fn, spec['n'], spec['seed'])
 
 
 NO_SHRINK = True
